@@ -23,12 +23,14 @@ type soakSpec struct {
 	Clients    int  `json:"clients"`
 	Restarts   bool `json:"restarts"`
 	Failures   bool `json:"failures"`
+	Reloads    bool `json:"reloads"`
 }
 
 type soakResult struct {
 	Queries   int64    `json:"queries"`
 	Rows      int64    `json:"rows"`
 	Mutations int64    `json:"mutations"`
+	Reloads   int64    `json:"reloads"`
 	Torn      []string `json:"torn"`
 	Backward  []string `json:"backward"`
 	Errors    []string `json:"errors"`
@@ -145,6 +147,31 @@ func soak(d *daemonWorld, spec soakSpec) soakResult {
 			time.Sleep(20 * time.Millisecond)
 		}
 	}()
+	// configuration reloads while everything else goes on: an unchanged configuration, and the last connection renamed
+	// back and forth (its peer is replaced by a new one that synchronises under the queries)
+	if spec.Reloads && len(d.lastConns) > 0 {
+		wg.Add(1)
+		go func() {
+			defer wg.Done()
+			n := 0
+			for {
+				select {
+				case <-stop:
+					return
+				case <-time.After(700 * time.Millisecond):
+				}
+				n++
+				conns := append([]lmd.VerifConn{}, d.lastConns...)
+				if n%2 == 1 {
+					last := conns[len(conns)-1]
+					last.Name += " r"
+					conns[len(conns)-1] = last
+				}
+				d.inst.VerifReload(conns, d.listen_)
+				atomic.AddInt64(&res.Reloads, 1)
+			}
+		}()
+	}
 	queries := []string{
 		"GET hosts\nColumns: peer_key name current_attempt plugin_output long_plugin_output perf_data latency state\nOutputFormat: json\n\n",
 		"GET services\nColumns: peer_key host_name description current_attempt plugin_output long_plugin_output perf_data latency state\nOutputFormat: json\n\n",
